@@ -309,6 +309,10 @@ fn render_concat(e: &Expr, out: &mut String, state: &mut bool, mut top: Option<&
                         out.push('<');
                         render_concat(body, out, state, None);
                         match (*lo, *hi, *spell) {
+                            // numbers are parsed, not looked up: leading zeros mean nothing
+                            (l, Some(h), 2) if l == h => out.push_str(&format!(":0{}", l)),
+                            (l, Some(h), 2) => out.push_str(&format!(":0{},00{}", l, h)),
+                            (l, None, 2) => out.push_str(&format!(":00{},", l)),
                             (0, None, 1) => {},
                             (1, None, 1) => out.push(':'),
                             (l, Some(h), 1) if l == h => out.push_str(&format!(":{}", l)),
